@@ -37,6 +37,7 @@ STRATA = [
     ("bin-zero", 150, 3000),
     ("bin-perfect-large", 150, 3000),
     ("bin-dup-runs", 600, 10000),
+    ("bin-huge-int", 400, 6000),
     ("bin-large", 40, 800),
 ]
 REQUIRED_EVENTS = {"any": ["knap.feasible.checked", "knap.objective.checked", "knap.optimal.exact-compared",
@@ -297,6 +298,21 @@ def gen(stratum, rng, tier):
         c = _bin_case(s, p, cap, al)
         c["opt_known"] = k  # total = k*cap and a k-bin packing exists by construction
         return c
+    if stratum == "bin-huge-int":
+        # byte-sized integers (capacity 1e9 .. 2**44): bins that are exactly full plus a few items of 1..8 units;
+        # "fits" has to be decided on the exact integer load, whatever the magnitude
+        cap = rng.choice([10 ** 9, 2 ** 30, 2 ** 33, 8 * 2 ** 30, 10 ** 12, 2 ** 44, rng.randint(10 ** 9, 10 ** 13)])
+        k = rng.randint(1, 3)
+        s = []
+        for _ in range(k):
+            s += _partition(cap, rng.randint(1, 3), rng)
+        s += [rng.randint(1, 8) for _ in range(rng.randint(1, 4))]
+        if rng.random() < 0.3:
+            s.append(cap - rng.randint(1, 8))
+        s = s[:12]
+        if rng.random() < 0.6:
+            rng.shuffle(s)
+        return _bin_case(s, 0, cap, al, fl=rng.random() < 0.2)
     if stratum == "bin-dup-runs":
         # k bins filled exactly from a handful of distinct sizes: long runs of equal sizes in processing order
         # (OPT = k by construction); the decreasing heuristics must stay within 11/9 OPT + 6/9
@@ -452,7 +468,7 @@ def _judge_bin(case, algo, res, opt, obs):
     for i, b in enumerate(a):
         loads[b] += s[i]
     for b, ld in enumerate(loads):
-        if ld * 10 ** 9 > cap * (10 ** 9 + 1):
+        if (ld > cap) if p == 0 else (ld * 10 ** 9 > cap * (10 ** 9 + 1)):  # integer data: exact
             obs.violate("bin.overload", f"{tag}: bin {b} holds {Fraction(ld, 10 ** p)} solution={a!r}")
             return
     obs.event("bin.lb.checked")
